@@ -5,7 +5,7 @@ CONSTANTS
   MaxPool = 0
   MaxSize = 0
   Raise = FALSE
-  Devs = {"EnumFirstZeroUnsigned", "UnnamedNoAlign", "UnionUnnamedIgnored", "PackedNoFinalAlign"}
+  Devs = {"UnnamedNoAlign", "UnionUnnamedIgnored", "PackedNoFinalAlign"}
   Widths = {}
   Emit = FALSE
   CharSigned = TRUE
